@@ -14,8 +14,12 @@ LEVEL_TEXT = ("Theorems (Lean 4) about the statement-by-statement model of the e
               "(gaps from freed indices, other sibling order, other topological order) the solver performs the same number of sweeps, "
               "ends in the same outcome (ok / RuntimeError / a law exception) and returns the same voltages, currents and flags up to the "
               "renumbering (`solvePhase_renumber`, `..._error`, `..._isOk_iff`), and the whole solve() table is the same up to row order: "
-              "component and subsystem rows are permutations, total and average rows are equal (`solve_renumber`). NOT proved: the link "
-              "from an edit history's `Sys.toSSys` to the renumbering relation `Iso` (stated for the relationships by `rel_factors`), and "
+              "component and subsystem rows are permutations, total and average rows are equal (`solve_renumber`). The composition (Props/C16Final): two arbitrary edit histories "
+              "(any calls, accepted or rejected, from any two constructor calls) whose final abstract structures are the `Same` (same entries by name with the same "
+              "component, ordered inputs and feeder set; same phase configurations, groups, rails; same ordered phases - node indices, sibling "
+              "order, registry order free) give solver views related by a renumbering (`toSSys_iso`), hence solve() succeeds on one iff on the "
+              "other and the tables are equal up to row order (`histories_same_table`, `histories_same_error`; no well-formedness hypothesis left, "
+              "only that the topological order handed in is a valid one - rustworkx's order is a parameter of the model). NOT proved: "
               "rail_rep / params / limits / phases / tree / save / diagrams as functions of the abstract structure - these rest on the differential test: after "
               "random successful edit histories every report (solve, rail_rep, params, limits, phases, tree, save, make_diag) of "
               "the edited system is compared with the same report of systems built from scratch from the final structure in a "
@@ -24,7 +28,7 @@ LEVEL_NOTE = ("proved: bookkeeping factors through the abstraction; solver and s
               "order and topological order. Which law exception escapes when two components fail in the same sweep does depend on the "
               "processing order (the exception class does not). The composition of the two halves and the other reports are tested, not proved.")
 MODULE = "SysLoss.Props.C16"
-MODULES = ["SysLoss.Props.C16", "SysLoss.Props.C16Renumber"]
+MODULES = ["SysLoss.Props.C16", "SysLoss.Props.C16Renumber", "SysLoss.Props.C16Final"]
 THEOREMS = [
     "SysLoss.C16.names_factor", "SysLoss.C16.rel_factors", "SysLoss.C16.phase_lkup_factors",
     "SysLoss.C16.noops_invisible", "SysLoss.C16.factors_nonvacuous", "SysLoss.C16.toSSys_node",
@@ -36,7 +40,12 @@ THEOREMS = [
     "solvePhase_renumber", "solvePhase_renumber_error", "solvePhase_runtime_iff", "solvePhase_isOk_iff",
     "fwdAt_comm", "backAt_comm", "childCurr_comm", "fwdProp_rel", "backProp_rel", "converged_rel", "init_rel", "loop_rel",
     "LawErr.not_runtime", "compRow_comm", "rootOf_hidx_comm", "compRows_spec", "compRows_renumber", "aggregates_perm",
-    "phaseTable_renumber", "nsrc_structural", "averageRow_congr", "solve_renumber", "solve_renumber_error")]
+    "phaseTable_renumber", "nsrc_structural", "averageRow_congr", "solve_renumber", "solve_renumber_error")] + [
+    # Props/C16Final: the composition - same final structure => same solve() table, for arbitrary edit histories
+    "SysLoss.C16F.toSSys_iso", "SysLoss.C16F.toSSys_tableWF", "SysLoss.C16F.toSSys_node?", "SysLoss.C16F.same_structure_same_table",
+    "SysLoss.C16F.same_structure_same_error", "SysLoss.C16F.same_structure_isOk_iff", "SysLoss.C16F.histories_same_table",
+    "SysLoss.C16F.histories_same_error", "SysLoss.C16F.exists_validTopo", "SysLoss.AStruct.Same.comps_perm",
+    "SysLoss.AStruct.Same.symm", "SysLoss.AStruct.Same.refl"]
 RULE = ("random edit histories of 5-50 calls (all six methods, ~20% rejected and dropped, components with limits and interpolation "
         "tables, phases, groups, rails, a PMux in ~50%) with forced coverage of: rename through change_comp, deletion with and "
         "without children, re-adding a deleted name, edits above / below / of the PMux and of its inputs, source deletion freeing "
